@@ -114,7 +114,72 @@ pub fn src(s: LenSource) -> Src {
     }
 }
 
+thread_local! {
+    static LEN_TEXT_TICK: std::cell::Cell<u32> = const { std::cell::Cell::new(0) };
+    static LEN_TEXT_FAULT: std::cell::RefCell<Option<(String, String)>> = const { std::cell::RefCell::new(None) };
+    static LEN_TEXT_CHECKED: std::cell::Cell<u64> = const { std::cell::Cell::new(0) };
+}
+
+/// What the message of a `LenError` has to say to describe the fault its fields describe: both
+/// byte counts, the offset when there is one, the direction, and the length source - by the name of
+/// the header field, with no other field named. Returns (what is wrong, the text).
+pub fn len_text_fault(e: &LenError) -> Option<(String, String)> {
+    let text = format!("{}", e);
+    let numbers: Vec<&str> = text.split(|c: char| !c.is_ascii_digit()).filter(|t| !t.is_empty()).collect();
+    let has = |v: usize| numbers.iter().any(|t| t.parse::<usize>().ok() == Some(v));
+    if !has(e.required_len) || !has(e.len) {
+        return Some(("byte_counts".into(), text));
+    }
+    if e.layer_start_offset > 0 && !has(e.layer_start_offset) {
+        return Some(("offset".into(), text));
+    }
+    let dir_ok = if e.required_len > e.len { text.contains("Not enough data") } else { text.contains("too big") };
+    if !dir_ok {
+        return Some(("direction".into(), text));
+    }
+    const FIELDS: [(&str, Src); 6] = [
+        ("from the MACsec", Src::MacsecShort),
+        ("from the IPv4", Src::Ipv4Total),
+        ("from the IPv6", Src::Ipv6Payload),
+        ("from the UDP", Src::UdpLen),
+        ("from the TCP", Src::TcpLen),
+        ("from the ARP", Src::ArpAddr),
+    ];
+    let s = src(e.len_source);
+    for (kw, k) in FIELDS {
+        if text.contains(kw) != (k == s) {
+            return Some((format!("len_source.{:?}", s), text));
+        }
+    }
+    if (s == Src::Slice) != text.contains("slice length") {
+        return Some((format!("len_source.{:?}", s), text));
+    }
+    None
+}
+
+/// first message fault seen since the last call (checked on every 4th `LenError` that passes
+/// through `nlen`), and the number of messages checked
+pub fn take_len_text_fault() -> (Option<(String, String)>, u64) {
+    (LEN_TEXT_FAULT.with(|f| f.borrow_mut().take()), LEN_TEXT_CHECKED.with(|c| c.replace(0)))
+}
+
 pub fn nlen(e: &LenError) -> NErr {
+    let t = LEN_TEXT_TICK.with(|c| {
+        let v = c.get().wrapping_add(1);
+        c.set(v);
+        v
+    });
+    if t % 4 == 0 && !cfg!(miri) {
+        LEN_TEXT_CHECKED.with(|c| c.set(c.get() + 1));
+        if let Some(f) = len_text_fault(e) {
+            LEN_TEXT_FAULT.with(|x| {
+                let mut x = x.borrow_mut();
+                if x.is_none() {
+                    *x = Some(f);
+                }
+            });
+        }
+    }
     NErr::Len {
         required: e.required_len,
         len: e.len,
@@ -786,6 +851,7 @@ pub fn l_udp(cx: &mut Cx, u: &UdpSlice) -> NLayer {
     l.p("csum", u.checksum());
     l.pu("~pay_off", cx.off(u.payload(), "UdpSlice::payload"));
     l.pu("~pay_len", u.payload().len());
+    l.p("~udp_src", src(u.payload_len_source()) as u8);
     cx.touch(u.header_slice(), "UdpSlice::header_slice");
     cx.calls(8);
     l
